@@ -27,6 +27,9 @@ type solverSpec struct {
 	argv func(file string, timeoutS int) []string
 }
 
+// wallFactor: wall-clock backstop as a multiple of the CPU-time limit per solver process.
+const wallFactor = 8
+
 var solverSpecs = []solverSpec{
 	{"z3-new", func(f string, t int) []string { return []string{"z3-new", fmt.Sprintf("-T:%d", t), "-smt2", f} }},
 	{"z3", func(f string, t int) []string { return []string{"/usr/bin/z3", fmt.Sprintf("-T:%d", t), "-smt2", f} }},
@@ -143,10 +146,15 @@ func runSolvers(name string, queries []string, timeoutS int, all bool, solvers [
 				sname = fmt.Sprintf("%s/rec", sp.name)
 			}
 			go func() {
-				argv := sp.argv(file, timeoutS)
-				c, cc := context.WithTimeout(ctx, time.Duration(timeoutS+2)*time.Second)
+				// The limit that decides "timeout" is CPU time of the solver process (ulimit -t), so a
+				// loaded machine does not turn a provable obligation into an undecided one; the
+				// solver's own wall-clock limit and the context deadline are only a backstop.
+				wall := timeoutS * wallFactor
+				argv := sp.argv(file, wall)
+				c, cc := context.WithTimeout(ctx, time.Duration(wall+5)*time.Second)
 				defer cc()
-				cmd := exec.CommandContext(c, argv[0], argv[1:]...)
+				sh := append([]string{"-c", fmt.Sprintf("ulimit -t %d; exec \"$@\"", timeoutS), "sh"}, argv...)
+				cmd := exec.CommandContext(c, "/bin/sh", sh...)
 				var buf bytes.Buffer
 				cmd.Stdout = &buf
 				cmd.Stderr = &buf
@@ -155,6 +163,10 @@ func runSolvers(name string, queries []string, timeoutS int, all bool, solvers [
 				out := buf.String()
 				st := parseStatus(out)
 				if c.Err() != nil && st == "unknown" {
+					st = "timeout"
+				}
+				if st == "unknown" && cmd.ProcessState != nil && !cmd.ProcessState.Success() && strings.TrimSpace(out) == "" {
+					// killed by the CPU limit (SIGXCPU/SIGKILL) before answering
 					st = "timeout"
 				}
 				ch <- one{sname, st, out, time.Since(t0).Seconds()}
